@@ -223,6 +223,13 @@ class PyList(Value):
             return PyFunc(pop, 'list.pop')
         if name == 'extend':
             return PyFunc(lambda interp, v: self.extend(interp, v), 'list.extend')
+        if name == 'insert':
+            def insert(interp, i, x):
+                if self.seq is None and concrete(i) is not None:
+                    self.items.insert(concrete(i), x)
+                    return None
+                raise Unsupported('list.insert on a symbolic list / at a symbolic position')
+            return PyFunc(insert, 'list.insert')
         raise Unsupported(f'list.{name}')
 
 
